@@ -207,6 +207,8 @@ class ReqHarness:
             self.busy_hosts += 1
         elif cond == "failing":
             conn.close()                    # the peer closed the socket; the pool has not noticed yet
+        elif cond == "unwritable":
+            conn._socket_writable = False   # the reactor reported a full send buffer: send_msg raises ConnectionBusy
         elif cond == "noconn":
             pool._connection = None
         else:
@@ -366,6 +368,8 @@ class ReqHarness:
             return "failing"
         if conn.in_flight >= conn.max_request_id:
             return "busy"
+        if not conn._socket_writable:
+            return "unwritable"
         return "healthy"
 
     def _plan(self):
@@ -571,15 +575,19 @@ def owners_of(fields, late):
     return own
 
 
-def attribute(name, fields, late, target):
-    """(signature, owners) of a divergence: one stable signature per class of failure."""
+def attribute(name, fields, late, target, idem=True, code=None):
+    """(signature, owners) of a divergence: one stable signature per class of failure.
+    `code`: the real objects' values of the diverging fields, where known."""
     f = set(fields)
+    code = code or {}
     if late and f & C14_FIELDS:
         # an answer / retry task after completion completed the future again
         return "late-answer:completed-again", {"C14"}
+    if not idem and "timer" in f and code.get("timer") == "spec":
+        return "non-idempotent:speculative-timer-armed", {"C16"}
     if name == "StartNextPage" and f and f <= {"timer", "specLeft"}:
         return "StartNextPage:no-fresh-timer", {"C15"}
-    if target and name in ("SpecFire", "RetryTask") and f & SEND_FIELDS:
+    if target and name in ("SpecFire", "RetryTask") and f & {"sentLog", "tried", "errs", "att"}:
         # send_request re-entered with an explicit target host: the one-host plan is iterated again
         return "explicit-host:plan-reiterated", {"C17"}
     if name == "Drain":
@@ -588,7 +596,10 @@ def attribute(name, fields, late, target):
         own = {"AnsOk": {"C14"}, "AnsFatal": {"C14"}, "AnsErr": {"C16"}, "RetryTask": {"C16"}, "SpecFire": {"C15"},
                "TimeoutFire": {"C15"}, "StartNextPage": {"C15"}, "Start": {"C17"}}.get(name, {"C14", "C15", "C16", "C17"})
         return "replay:%s:not-performed" % name, own
-    return "replay:%s:%s" % (name, ",".join(sorted(f))), owners_of(f, late)
+    own = owners_of(f, late)
+    if name == "AnsErr" and not late and f & C14_FIELDS:
+        own = own | {"C16"}          # the outcome of a policy decision (RETHROW / IGNORE) is C16's statement as well
+    return "replay:%s:%s" % (name, ",".join(sorted(f))), own
 
 
 def signature_for(pid, div):
@@ -629,7 +640,7 @@ def replay(nhosts, states, max_epoch=2, drain=True, log=None, resync=True):
     A divergence with resynced=True was repaired on the live objects (known class) and the replay went on; any other
     divergence ends the replay."""
     cfg = config_of(states[0])
-    target = cfg["target"]
+    target = (cfg["target"], cfg["idem"])
     out = []
     h = ReqHarness(nhosts, cfg["pool"], cfg["idem"], cfg["spec"], cfg["target"], max_epoch=max_epoch)
     try:
@@ -686,9 +697,10 @@ def replay(nhosts, states, max_epoch=2, drain=True, log=None, resync=True):
         h.shutdown()
 
 
-def _div(step, act, d, late, target):
+def _div(step, act, d, late, cfg):
+    target, idem = cfg
     fields = [k for k in d if not k.startswith("_")]
-    sig, own = attribute(act.get("name"), fields, late, target)
+    sig, own = attribute(act.get("name"), fields, late, target, idem, {k: d[k].get("code") for k in fields})
     return {"step": step, "action": act, "diff": d, "late": late, "owners": sorted(own), "signature": sig,
             "resynced": False}
 
@@ -710,7 +722,7 @@ def post_of(p):
     return out
 
 
-ALL_CONDS = ("missing", "shutdown", "busy", "failing")
+ALL_CONDS = ("missing", "shutdown", "busy", "failing", "unwritable")
 RETRYABLE = ("ReadTimeout", "WriteTimeout", "Unavailable", "OverloadedErrorMessage", "IsBootstrappingErrorMessage",
              "ServerError", "ConnectionShutdown")
 
